@@ -470,10 +470,12 @@ Definition check_physical (S : schema) (F G : features) (l : list sexp) : option
   end.
 
 Definition check_case (S : schema) (F G : features) (accepted : bool) (l : list sexp) (sd : sexp) : sexp :=
-  if negb (Bool.eqb (schema_ok S) accepted) then
-    v_mismatch "schema-ok" [of_bool (schema_ok S); of_bool accepted]
-  else if negb accepted then v_ok [case_kind l; "schema-rejected"]
+  if negb accepted then
+    if schema_ok S then v_mismatch "schema-ok" [of_bool true; of_bool false]
+    else v_ok [case_kind l; "schema-rejected"]
   else
+    (* the implementation accepted the schema: the oracle speaks first, also when the model's
+       schema_ok disagrees (then a failing request is the better report) *)
     let E := erase S F in
     match field1 "erased" l with
     | None => v_bad "erased"
@@ -491,6 +493,8 @@ Definition check_case (S : schema) (F G : features) (accepted : bool) (l : list 
                   match first_some (oracle_req S E F) rs' with
                   | Some v => v
                   | None =>
+                      if negb (schema_ok S) then v_mismatch "schema-ok" [of_bool false; of_bool true]
+                      else
                       match first_some (compare_req S E F G) rs' with
                       | Some v => v
                       | None =>
